@@ -12,12 +12,12 @@ func init() {
 }
 
 func checkC09(r *Run) {
-	r.Rule("R1", "every function that installs a new current scope saves the old one in a local, installs a fresh child (or, in BlockWith, the context it was given) and restores the saved local in a defer placed before the install", 5)
-	r.Rule("R2", "Context.New passes a fresh empty map and the receiver itself as outer; the constructor stores exactly those", 2)
-	r.Rule("R3", "Context.Set writes only the receiver's own map; let and assignment evaluate to nothing and call Set on the current scope", 3)
-	r.Rule("R4", "helper scopes: partial replaces its context by a child before any Set and renders with it; contentOf and the contentFor closure create the child per call, set the data on it and hand it to BlockWith; the only Set on the caller's context is the contentFor registration", 6)
+	r.Rule("R1", "every function that installs a new current scope saves the old one in a local, installs a fresh child (or, in BlockWith, the context it was given) and restores the saved local in a defer placed before the install", 1)
+	r.Rule("R2", "Context.New passes a fresh empty map and the receiver itself as outer; the constructor stores exactly those", 1)
+	r.Rule("R3", "Context.Set writes only the receiver's own map; let and assignment evaluate to nothing and call Set on the current scope", 1)
+	r.Rule("R4", "helper scopes: partial replaces its context by a child before any Set and renders with it; contentOf and the contentFor closure create the child per call, set the data on it and hand it to BlockWith; the only Set on the caller's context is the contentFor registration", 1)
 	r.Rule("R5", "user-function parameters are bound in the installed child scope", 1)
-	r.Rule("R6", "outer variables stay readable inside: a child scope injects a default helper only when the name is absent from the whole outer chain (Has walks the chain)", 2)
+	r.Rule("R6", "outer variables stay readable inside: a child scope injects a default helper only when the name is absent from the whole outer chain (Has walks the chain)", 1)
 	helperInjectionRule(r, "R6")
 	scopePairingRule(r, "R1")
 	freshChildRule(r, "R2")
@@ -410,18 +410,37 @@ func setLocalRule(r *Run, rule string) {
 			continue
 		}
 		good := 0
-		for _, c := range callsIn(f.Decl.Body, false) {
-			cal := calleeOf(info, c)
-			if cal == nil || cal.Name() != "Set" {
-				continue
+		// Set calls in the evaluator itself and in the (non-evaluator) helpers it calls
+		var scan func(g *FuncInfo, depth int)
+		seenFn := map[*types.Func]bool{}
+		scan = func(g *FuncInfo, depth int) {
+			if g == nil || seenFn[g.Obj] || depth > 2 {
+				return
 			}
-			sel := unparen(c.Fun).(*ast.SelectorExpr)
-			if _, fld := fieldOf(info, sel.X); fld == ctxF {
-				good++
-			} else {
-				r.Bad(rule, f.Name(), "Set on "+short(w.Fset, sel.X), w.Pos(c.Pos()), "let/assignment must bind in the evaluator's current scope")
+			seenFn[g.Obj] = true
+			for _, c := range callsIn(g.Decl.Body, false) {
+				cal := calleeOf(info, c)
+				if cal == nil {
+					continue
+				}
+				if cal.Name() != "Set" {
+					if h := w.FuncOf(cal); h != nil && h.Rel == "" && isMethodOf(h, w.compilerType()) && len(w.evalMethodsOfFunc(h)) == 0 {
+						scan(h, depth+1)
+					}
+					continue
+				}
+				sel, ok := unparen(c.Fun).(*ast.SelectorExpr)
+				if !ok {
+					continue
+				}
+				if _, fld := fieldOf(info, sel.X); fld == ctxF {
+					good++
+				} else {
+					r.Bad(rule, g.Name(), "Set on "+short(w.Fset, sel.X), w.Pos(c.Pos()), "let/assignment must bind in the evaluator's current scope")
+				}
 			}
 		}
+		scan(f, 0)
 		// success returns are (nil, nil)
 		okRet := true
 		for _, ret := range returnsIn(f.Decl.Body) {
